@@ -243,6 +243,70 @@ func checkC08(w *Worker) {
 		x.Case(fmt.Sprint(ci, ui, role), true)
 		runOne(x, files, cmd, "unreadable")
 	})
+	// ---- sizes: counts and lengths past every small capacity (8, 16, 32, 64, 128, 256) along each dimension of the input,
+	// through every command shape; for the widest-reaching dimension (distinct elements per day) every PAIR of
+	// consecutive day sizes, so that whatever is sized on one day and reused on the next meets both growth directions
+	sizes := []int{1, 9, 17, 33, 40, 65, 70, 129, 300}
+	sizeDims := []string{"distinct-elements-per-day(pairs)", "elements-of-a-recipe", "recipes-in-the-book", "days", "name-length", "path-depth", "repeats-and-notes-in-a-day", "ingredient-recipes-of-a-recipe"}
+	w.Explore("sizes-x-commands", ExploreOpts{ShardDepth: 3, NoAudit: true}, func(x *Exec) {
+		dim := x.Choose(len(sizeDims), "input:dimension")
+		n := sizes[x.Choose(len(sizes), "input:size")]
+		n2 := 0
+		if dim == 0 {
+			n2 = sizes[x.Choose(len(sizes), "input:size-of-second-day")]
+		}
+		ci := x.Choose(len(c08Cmds), "input:command")
+		var book, lg strings.Builder
+		book.WriteString(goodBook)
+		switch dim {
+		case 0:
+			for d, k := range []int{n, n2} {
+				lg.WriteString(fmt.Sprintf("2021/01/%02d:\n  r1: 1\n", 24+d))
+				for i := 0; i < k; i++ {
+					lg.WriteString(fmt.Sprintf("  el%03d: %d\n", (i*7+d*3)%400, i-3))
+				}
+			}
+		case 1:
+			book.WriteString("x:\n")
+			for i := 0; i < n; i++ {
+				book.WriteString(fmt.Sprintf("  el%03d: %d\n", (i*7)%400, i-3))
+			}
+			lg.WriteString("2021/01/24:\n  x: 2\n  r1: 1\n2021/01/25:\n  x: -1\n")
+		case 2:
+			for i := 0; i < n; i++ {
+				book.WriteString(fmt.Sprintf("x%03d:\n  cal: %d\n  x%03d: 1\n", i, i, (i+1)%n+1000*btoi(i%3 != 0)))
+			}
+			lg.WriteString("2021/01/24:\n  x000: 2\n  x/y: 1\n")
+		case 3:
+			for i := 0; i < n; i++ {
+				lg.WriteString(fmt.Sprintf("20%02d/%02d/%02d:\n  r1: 1\n  x: %d\n", 21+i/336, 1+(i/28)%12, 1+i%28, i))
+			}
+		case 4:
+			long := strings.Repeat("n", n*17)
+			book.WriteString("x" + long + ":\n  e" + long + ": 1\n")
+			lg.WriteString("2021/01/24:\n  x" + long + ": 2\n  u" + long + ": 1\n  # " + long + ": " + long + "\n")
+		case 5:
+			deep := strings.Repeat("s/", n) + "leaf"
+			book.WriteString(deep + ":\n  cal: 1\n")
+			lg.WriteString("2021/01/24:\n  " + deep + ": 2\n  " + strings.Repeat("s/", n/2) + "other: 1\n")
+		case 6:
+			lg.WriteString("2021/01/24:\n")
+			for i := 0; i < n; i++ {
+				lg.WriteString(fmt.Sprintf("  r1: 1\n  # note%d: v\n  u: -1\n", i))
+			}
+		case 7:
+			book.WriteString("x:\n")
+			for i := 0; i < n; i++ {
+				book.WriteString(fmt.Sprintf("  i%03d: 1\n", i))
+			}
+			for i := 0; i < n; i++ {
+				book.WriteString(fmt.Sprintf("i%03d:\n  cal: 1\n  e%03d: 2\n", i, i%40))
+			}
+			lg.WriteString("2021/01/24:\n  x: 2\n")
+		}
+		x.Case(fmt.Sprint(sizeDims[dim], n, n2, ci), true)
+		runOne(x, map[string]string{"food.yaml": book.String(), "log.yaml": lg.String()}, c08Cmds[ci], "sizes")
+	})
 	// ---- cycles of every length <= 4 and deep chains against every depth limit, incl. an absurd one
 	depths := []string{"1", "2", "3", "10", "100000", "2000000000"}
 	w.Explore("cycles-and-depth-limits", ExploreOpts{ShardDepth: 3, NoAudit: true}, func(x *Exec) {
